@@ -5,6 +5,7 @@ import (
 	"fmt"
 	"math/big"
 	"regexp"
+	"sort"
 	"strings"
 	"time"
 
@@ -15,6 +16,7 @@ import (
 type Atom struct {
 	ID    int    // index in the resource's atom list (stable across histories)
 	Field string // address, metadata[k], balance[USD/2], timestamp, …
+	Canon string // canonical field name for signatures when Field is an alias
 	Op    string // $match $lt $lte $gt $gte $exists $in
 	// exactly one of the following is the value
 	S    *string
@@ -73,8 +75,15 @@ func isAddrField(f string) bool {
 // field (index erased), address pattern kind, operator.
 func (a *Atom) shape() string {
 	f := indexRe.ReplaceAllString(a.Field, "[]")
+	if a.Canon != "" {
+		f = a.Canon
+	}
 	if isAddrField(a.Field) && a.S != nil {
 		f += ":" + addrKind(*a.S)
+	}
+	if a.N != nil || a.T != nil {
+		// the five comparison operators of an ordered field share one code path
+		return f + "$cmp"
 	}
 	return f + a.Op
 }
@@ -86,14 +95,20 @@ type F struct {
 	Kids []*F
 }
 
-func At(a *Atom) *F      { return &F{Op: "atom", A: a} }
-func Not(f *F) *F        { return &F{Op: "not", Kids: []*F{f}} }
-func And(fs ...*F) *F    { return &F{Op: "and", Kids: fs} }
-func Or(fs ...*F) *F     { return &F{Op: "or", Kids: fs} }
+// All is the absent filter: it selects every entity.
+func All() *F { return &F{Op: "all"} }
+
+func At(a *Atom) *F       { return &F{Op: "atom", A: a} }
+func Not(f *F) *F         { return &F{Op: "not", Kids: []*F{f}} }
+func And(fs ...*F) *F     { return &F{Op: "and", Kids: fs} }
+func Or(fs ...*F) *F      { return &F{Op: "or", Kids: fs} }
 func (f *F) isAtom() bool { return f.Op == "atom" }
 
 func (f *F) obj() map[string]any {
 	switch f.Op {
+	case "all":
+		// inside a connective the absent filter is the empty conjunction
+		return map[string]any{"$and": []any{}}
 	case "atom":
 		return map[string]any{f.A.Op: map[string]any{f.A.Field: f.A.value()}}
 	case "not":
@@ -109,6 +124,9 @@ func (f *F) obj() map[string]any {
 
 // JSON is the request body a client would send.
 func (f *F) JSON() string {
+	if f.Op == "all" {
+		return ""
+	}
 	b, err := json.Marshal(f.obj())
 	if err != nil {
 		panic(err)
@@ -121,6 +139,8 @@ func (f *F) Builder() (query.Builder, error) { return query.ParseJSON(f.JSON()) 
 
 func (f *F) Shape() string {
 	switch f.Op {
+	case "all":
+		return "no-filter"
 	case "atom":
 		return f.A.shape()
 	default:
@@ -128,6 +148,7 @@ func (f *F) Shape() string {
 		for i, k := range f.Kids {
 			parts[i] = k.Shape()
 		}
+		sort.Strings(parts) // $and / $or are commutative
 		return f.Op + "(" + strings.Join(parts, ",") + ")"
 	}
 }
@@ -135,6 +156,8 @@ func (f *F) Shape() string {
 // Key identifies the formula independently of history-specific values.
 func (f *F) Key() string {
 	switch f.Op {
+	case "all":
+		return "T"
 	case "atom":
 		return fmt.Sprint(f.A.ID)
 	default:
@@ -149,6 +172,8 @@ func (f *F) Key() string {
 // Eval evaluates with classical two-valued logic: $not is set complement.
 func (f *F) Eval(atom func(*Atom) bool) bool {
 	switch f.Op {
+	case "all":
+		return true
 	case "atom":
 		return atom(f.A)
 	case "not":
@@ -182,6 +207,9 @@ func (f *F) size() int {
 // replacing the formula by one of its children, or reducing one child.
 func (f *F) reductions() []*F {
 	var out []*F
+	if f.Op == "atom" {
+		return []*F{All()}
+	}
 	for _, k := range f.Kids {
 		out = append(out, k)
 	}
@@ -200,7 +228,7 @@ func (f *F) reductions() []*F {
 // depth2 returns every formula of depth <= 2 in the sense of DESIGN §5 (an atom has
 // depth 1): a, ¬a, a∧b, a∨b for every atom a and every unordered pair {a,b}.
 func depth2(atoms []*Atom) []*F {
-	var out []*F
+	out := []*F{All()}
 	for _, a := range atoms {
 		out = append(out, At(a))
 	}
@@ -218,8 +246,8 @@ func depth2(atoms []*Atom) []*F {
 // depth3only returns every formula of depth exactly 3 over atoms: ¬f, f∧g, f∨g where
 // f, g have depth <= 2 and at least one has depth 2 ({f,g} unordered, f != g).
 func depth3only(atoms []*Atom) []*F {
-	d2 := depth2(atoms)
-	n1 := len(atoms) // the first n1 entries of d2 have depth 1
+	d2 := depth2(atoms)[1:] // without the absent filter
+	n1 := len(atoms)        // the first n1 entries of d2 have depth 1
 	var out []*F
 	for _, f := range d2[n1:] {
 		out = append(out, Not(f))
@@ -266,10 +294,14 @@ func families(atoms []*Atom) []*F {
 
 // ---------- atom construction helpers ----------
 
-type atomList struct{ l []*Atom }
+type atomList struct {
+	l     []*Atom
+	alias map[string]string
+}
 
 func (al *atomList) add(a *Atom) *Atom {
 	a.ID = len(al.l)
+	a.Canon = al.alias[a.Field]
 	al.l = append(al.l, a)
 	return a
 }
